@@ -668,6 +668,12 @@ def rule_stop(ctx):
     r = Render(c)
     key = fn_key(fn)
     inits = inits_of(fn)
+    # the dissimilarities of successive merges are not ascending for every linkage (centroid and median linkage produce
+    # inversions): a binary search over the steps (`partition_point`, `binary_search_by`) is a search on an unsorted sequence
+    for y in walk(fn["body"]):
+        if y.get("k") == "MethodCall" and y["name"] in ("partition_point", "binary_search_by", "binary_search_by_key", "binary_search") and any(z.get("k") == "Field" and z["name"] == "dissimilarity" for a in y["args"] for z in walk(a)):
+            res.instance("%s : %s over the steps" % (key, y["name"]))
+            res.violate("%s : binary-search-over-merge-steps" % key, "`%s`: the dissimilarities of successive merges are not monotone for every linkage method on offer (centroid / median linkage invert), so the first step at or above the threshold is not found by bisection: merges above the threshold are replayed or merges below it are dropped" % r.e(y)[:60], fn_loc(fn, y.get("ln")))
     lp = _steps_loop(fn, inits)
     if lp is None:
         res.missing_anchor("the loop over the linkage steps")
@@ -1149,6 +1155,24 @@ def rule_views(ctx):
         flt = next((y for y in walk(fn["body"]) if y.get("k") == "MethodCall" and y["name"] == "filter" and y["args"] and strip(y["args"][0]).get("k") == "Closure"), None)
         src_idx = any(y.get("k") == "MethodCall" and y["name"] == "indexed_iter" for y in walk(fn["body"]))
         if flt is None or not src_idx:
+            # a hand-computed position in the condensed triangle: row r starts at r(2n - r - 1)/2, an integer although
+            # neither factor need be even - dividing one factor first truncates for every other row
+            trunc = None
+            for y in walk(fn["body"]):
+                if y.get("k") == "Binary" and y["op"] == "*" and (c.ty(y.get("t")) or "").strip() in ("usize", "u32", "u64", "isize", "i32", "i64"):
+                    for side in (y["l"], y["r"]):
+                        s_ = peel_refs(side)
+                        while s_.get("k") in ("Paren", "DropTemps"):
+                            s_ = peel_refs(s_["e"])
+                        if s_.get("k") == "Binary" and s_["op"] == "/" and peel_refs(s_["r"]).get("k") == "Lit":
+                            dd = peel_refs(s_["l"])
+                            while dd.get("k") in ("Paren", "DropTemps"):
+                                dd = peel_refs(dd["e"])
+                            if dd.get("k") == "Binary" and dd["op"] in ("+", "-"):
+                                trunc = y
+            if trunc is not None:
+                res.violate("%s : truncating-division-before-product" % key, "`%s`: one factor of a product that is even only as a whole is divided first; the integer division truncates whenever that factor is odd and the values land in other cells of the condensed triangle" % r.e(trunc)[:50], fn_loc(fn, trunc.get("ln")))
+                continue
             res.undecided("%s : form" % key, "not `indexed_iter().filter(|((row, col), _)| ..)` (fail closed)", fn_loc(fn))
             continue
         clo = strip(flt["args"][0])
